@@ -738,8 +738,120 @@ def x_same(a, b):
 # generic scalar helpers
 
 
+# --------------------------------------------------------------------------------------
+# XF: bit-precise IEEE-754 binary64 values (z3 FloatingPoint theory), used where a property is *about* rounding
+
+_F64 = z3.Float64()
+_RNE = z3.RNE()
+
+
+def _fv(x):
+    return z3.FPVal(float(x), _F64)
+
+
+class XF:
+    """binary64 value as a z3 FP term; arithmetic is round-to-nearest-even like CPython/NumPy."""
+
+    __slots__ = ("t",)
+    __array_ufunc__ = None
+
+    def __init__(self, t):
+        self.t = t
+
+    @staticmethod
+    def lift(x):
+        if isinstance(x, XF):
+            return x
+        if isinstance(x, (int, float, _np.integer, _np.floating)) and not isinstance(x, (bool, _np.bool_)):
+            return XF(_fv(x))
+        if isinstance(x, _np.ndarray) and x.shape == ():
+            return XF.lift(x[()])
+        raise Unsupported("cannot lift %r to a binary64 term" % (type(x),))
+
+    def _bin(self, o, f, rev=False):
+        try:
+            o = XF.lift(o)
+        except Unsupported:
+            return NotImplemented
+        a, b = (o.t, self.t) if rev else (self.t, o.t)
+        return XF(f(a, b))
+
+    def __add__(self, o):
+        return self._bin(o, lambda a, b: z3.fpAdd(_RNE, a, b))
+
+    __radd__ = __add__
+
+    def __sub__(self, o):
+        return self._bin(o, lambda a, b: z3.fpSub(_RNE, a, b))
+
+    def __rsub__(self, o):
+        return self._bin(o, lambda a, b: z3.fpSub(_RNE, a, b), True)
+
+    def __mul__(self, o):
+        return self._bin(o, lambda a, b: z3.fpMul(_RNE, a, b))
+
+    __rmul__ = __mul__
+
+    def __truediv__(self, o):
+        return self._bin(o, lambda a, b: z3.fpDiv(_RNE, a, b))
+
+    def __rtruediv__(self, o):
+        return self._bin(o, lambda a, b: z3.fpDiv(_RNE, a, b), True)
+
+    def __neg__(self):
+        return XF(z3.fpNeg(self.t))
+
+    def _cmp(self, o, f):
+        return mk_bool(f(self.t, XF.lift(o).t))
+
+    def __lt__(self, o):
+        return self._cmp(o, z3.fpLT)
+
+    def __le__(self, o):
+        return self._cmp(o, z3.fpLEQ)
+
+    def __gt__(self, o):
+        return self._cmp(o, z3.fpGT)
+
+    def __ge__(self, o):
+        return self._cmp(o, z3.fpGEQ)
+
+    def __eq__(self, o):
+        return self._cmp(o, z3.fpEQ)
+
+    def __ne__(self, o):
+        return self._cmp(o, lambda a, b: z3.Not(z3.fpEQ(a, b)))
+
+    __hash__ = None
+
+    def __bool__(self):
+        return ctx().branch(z3.Not(z3.fpIsZero(self.t)))
+
+    def __float__(self):
+        raise Unsupported("float() of a symbolic binary64 value")
+
+    def __repr__(self):
+        return "XF(%s)" % (z3.simplify(self.t),)
+
+
+def xf_int_trunc(x, bound=4096):
+    """int(x) for a binary64 term: forks over the integer k with k <= x < k+1 (x >= 0) resp. k-1 < x <= k (x < 0)."""
+    c = ctx()
+    if c.branch(z3.Or(z3.fpIsNaN(x.t), z3.fpIsInf(x.t))):
+        raise ValueError("cannot convert float NaN/infinity to integer")
+    if c.branch(z3.fpLT(x.t, _fv(0.0))):
+        for k in range(0, -bound, -1):
+            if c.branch(z3.And(z3.fpGT(x.t, _fv(k - 1)), z3.fpLEQ(x.t, _fv(k)))):
+                return k
+        raise Unsupported("int() of a binary64 term below -%d" % bound)
+    for k in range(bound):
+        if c.branch(z3.And(z3.fpGEQ(x.t, _fv(k)), z3.fpLT(x.t, _fv(k + 1)))):
+            return k
+    raise Unsupported("int() of a binary64 term above %d" % bound)
+
+
 def is_sym(x):
-    return isinstance(x, (XR, SBool, SInt))
+    return isinstance(x, (XR, SBool, SInt, XF))
 
 
 def _zero_like(o):
@@ -763,6 +875,8 @@ def s_where(c, a, b):
         return mk_bool(b_ite(cz, _zb(a), _zb(b)))
     if _is_intlike(a) and _is_intlike(b) and not isinstance(a, (bool, _np.bool_, SBool)):
         return mk_int(z3.If(cz, _zi(a), _zi(b)))
+    if isinstance(a, XF) or isinstance(b, XF):
+        return XF(z3.If(cz, XF.lift(a).t, XF.lift(b).t))
     return x_ite(cz, as_xr(a), as_xr(b))
 
 
